@@ -144,6 +144,20 @@ MovesUnion(h, kn) ==
              \o (IF rc = 2 THEN PreUnion(h[2], 2) ELSE <<>>)
              \o <<MUnion(lc, rc, FALSE), MUnion(lc, rc, TRUE)>>
 
+(* hidden and visible columns of ONE name on the sides of a union: a column is hidden (drop) and another one renamed onto its *)
+(* name, so that the hidden one is registered before or after the visible one; the other side drops the surplus column        *)
+MovesUnionH(h, kn) ==
+    LET lc == LCur(h)
+        rc == RCur(h)
+        jc == JCur(h)
+        pre(t, i) == LET a == ColOf(t, "a") g == ColOf(t, "g") b == ColOf(t, "b") IN
+                     (IF Len(t.vis) >= 3 THEN MapS(a, LAMBDA c : MDrop(i, <<Col(c)>>)) \o MapS(g, LAMBDA c : MDrop(i, <<Col(c)>>)) ELSE <<>>)
+                     \o (IF NameFree(t, "a") /\ g # <<>> THEN <<MRename(i, <<[c |-> Col(g[1]), n |-> "a"]>>)>> ELSE <<>>)
+                     \o (IF NameFree(t, "g") /\ a # <<>> THEN <<MRename(i, <<[c |-> Col(a[1]), n |-> "g"]>>)>> ELSE <<>>)
+    IN  IF jc # 0 THEN <<>>
+        ELSE pre(h[lc], lc) \o pre(h[rc], rc)
+             \o <<MUnion(lc, rc, FALSE), MUnion(lc, rc, TRUE)>>
+
 ---------------------------------------------------------------------------
 (* C09: a reference is created (kn = every identity that was ever visible), *)
 (* a history of verbs follows, then the reference is used.                  *)
